@@ -59,7 +59,7 @@ def instances(tier, seed):
             out.append(_inst(el, t, "2", "law"))
         out.append(_inst(el, TREES2[1], "2", "update"))
     for el in ("GlobalDamper", "UniformGravity", "Gravity", "GravityVec"):
-        for t in (trees if th else [TREES2[0], TREES3[1]]):
+        for t in (trees[:6] if th else [TREES2[0], TREES3[1]]):
             out.append(_inst(el, t, "1", "law", euler=(t.find("Ball") >= 0 and el == "Gravity")))
         for t, att in ((TREES2[1], "1"), (TREES3[0], "3")) if (th or el.startswith("Gravity")) else ((TREES2[1], "1"),):
             out.append(_inst(el, t, att, "update"))
